@@ -35,6 +35,7 @@ pub enum LogicalOp {
 pub struct ConditionEvaluatorBuilder {
     pub evaluator: ConditionEvaluator,
     pub temporal_fields: Option<HashSet<String>>,
+    pub text_fields: Option<HashSet<String>>,
 }
 
 impl ConditionEvaluatorBuilder {
@@ -44,6 +45,7 @@ impl ConditionEvaluatorBuilder {
         Self {
             evaluator: ConditionEvaluator::new(),
             temporal_fields: None,
+            text_fields: None,
         }
     }
 
@@ -60,6 +62,7 @@ impl ConditionEvaluatorBuilder {
         Self {
             evaluator: ConditionEvaluator::new(),
             temporal_fields: self.temporal_fields.clone(),
+            text_fields: self.text_fields.clone(),
         }
     }
 
